@@ -13,7 +13,7 @@ Decided (table and grammar agreement against an independent transcription of RFC
   C03.utf8    the coded frame number: every continuation byte is checked to start with 0b10, 6 payload bits each
   (C03.wide also requires |side| % 2 as the parity term of both mid-side reconstructions)
   C03.wide   (also) every function mapping bit-depth codes to bit-count constants uses, per code, the constant of From<BitsPerSample>
-  C03.accept the frame / subframe / residual readers raise errors at no more sites than the reviewed inventory spec/reject_sites.json
+  C03.accept the table-like code readers of the frame header (from_reader / try_from of BlockSize, SampleRate, BitsPerSample ..) raise errors at no more sites than the reviewed inventory spec/reject_sites.json
   C03.params Frame::resize stamps all three frame parameters on every path (taken from C16)
 Not decided: the arithmetic of reconstruction (prediction, mid/side) against the RFC for all sample values.
 """
